@@ -130,6 +130,30 @@ def rule_dangling(repo, rule):
                     rule.undecided(where, fi.fq, term, "use of the allocated wire not tracked")
 
 
+def zero_test_results(fi):
+    """Names of the witnesses r of `fi` that its own constraints force to [x == 0]:  x*r = 0  and  x*w = 1 - r  for some
+    other witness w (Pinocchio zero test; x is the first parameter)."""
+    wits = [norm(a.targets[0]) for a in ast.walk(fi.node) if isinstance(a, ast.Assign) and isinstance(a.value, ast.Call)
+            and norm(a.value.func).split(".")[-1] in ("PrivVal", "PrivValBool") and a.value.args and own(fi, a)]
+    env = {w: P.sym(w) for w in wits}
+    env[fi.params[0]] = P.sym("x")
+    env["LinComb.ONE_SAFE"] = P.const(1)
+    env["LinComb.ONE"] = P.const(1)
+    env["LinComb.ZERO"] = P()
+    got = []
+    for c in ast.walk(fi.node):
+        if isinstance(c, ast.Call) and norm(c.func).split(".")[-1] in EMITTERS and len(c.args) >= 3:
+            ps = [poly_of(a, env, strict=True) for a in c.args[:3]]
+            if None not in ps:
+                got.append(ps[0] * ps[1] - ps[2])
+    x = P.sym("x")
+    out = set()
+    for r in wits:
+        if any(p == x * P.sym(r) for p in got) and any(p == x * P.sym(w) - (1 - P.sym(r)) for w in wits if w != r for p in got):
+            out.add(r)
+    return out
+
+
 def rule_boolean(repo, rule):
     sites = []
     for m in repo.modules.values():
@@ -148,8 +172,7 @@ def rule_boolean(repo, rule):
         where = fi.loc(c)
         arg = c.args[0]
         if fi.fq == RT + ":LinComb.check_zero":
-            rets = {norm(a.targets[0]) for a in ast.walk(fi.node) if isinstance(a, ast.Assign) and "PrivVal(1 if" in norm(a.value)}
-            if norm(arg) in rets:
+            if norm(arg) in zero_test_results(fi):
                 rule.ok(where, fi.fq, norm(c), "result of the zero test: forced to [self == 0] by the two Pinocchio constraints (R-C02-3)")
             else:
                 rule.violation(where, fi.fq, norm(c), "unconstrained Boolean is not the zero-test result", "bool/%s" % fi.fq)
@@ -214,11 +237,21 @@ def rule_boolean(repo, rule):
             rule.ok(where, fi.fq, verdicts[0][2] + ("  [%d paths]" % len(verdicts) if len(verdicts) > 1 else ""), verdicts[0][1])
 
 
+def _root_of(n):
+    r = n
+    for p in parents(n):
+        r = p
+        if isinstance(p, (ast.FunctionDef, ast.AsyncFunctionDef)):
+            break
+    return r
+
+
 def _same_arm(a, c):
     """Assignment `a` precedes call `c` in the same statement list chain (no enclosing arm of `a` excludes `c`)."""
     pa = [p for p in parents(a) if isinstance(p, (ast.If, ast.For, ast.While))]
     pc = [p for p in parents(c) if isinstance(p, (ast.If, ast.For, ast.While))]
-    return all(p in pc for p in pa) and a.lineno <= c.lineno
+    from ..loader import precedes
+    return all(p in pc for p in pa) and precedes(_root_of(a), a, c)
 
 
 def on_all_paths(fi, pred, what, rule, key):
@@ -501,12 +534,12 @@ def rule_selection(repo, rule):
     else:
         rule.violation(ite.loc(), ite.fq, "no LinCombBool type check before the selection", "selection accepts a condition that is not "
                        "constrained Boolean: cond = 2 selects 2*t - f", "select/type")
-    gline = guard[0].lineno if guard else 0
+    from ..loader import precedes as _prec
     env = {c_: P.sym("c"), t_: P.sym("t"), f_: P.sym("f")}
     want = P.sym("f") + P.sym("c") * (P.sym("t") - P.sym("f"))
     n_sel = 0
     for r in rets:
-        if r.lineno < gline:
+        if guard and _prec(ite.node, r, guard[0]):
             continue          # public condition / identical alternatives: decided before the type check
         v = r.value
         if isinstance(v, ast.ListComp) and isinstance(v.elt, ast.Call) and norm(v.elt.func).endswith("if_then_else") \
